@@ -19,6 +19,7 @@ RULE_MODULES: Dict[str, str] = {
     "R22": "r22_classify",
     "R23": "r23_adapters",
     "R24": "r24_helpers",
+    "R10": "r10_remote",
     "R11": "r11_reply",
 }
 
@@ -29,18 +30,20 @@ PROPERTY_RULES: Dict[str, List[str]] = {
             "R20/table/input_delays", "R20/delay", "R19/interval", "R19/anc-closure"],
     "C02": ["R2/INFLIGHT", "R2/anc", "R2/own", "R3/P", "R4", "R5", "R11/schedule", "R11/sched-value", "R11/time-arg", "R11/last-step", "R20/table/triggers", "R20/delay",
             "R19/anc-closure"],
+    "C03": ["R17", "R5/store", "R5/update_min", "R20/delay", "R20/table", "R11/out", "R4/outtime", "R1/O1"],
+    "C04": ["R5", "R6", "R17", "R10/R18", "R1/O3", "R20/table", "R20/delay"],
     "C05": ["R1/O4", "R1/O5", "R2", "R4/wake", "R4/settle", "R4/wait", "R5", "R6", "R7/site", "R19/anc-closure"],
     "C06": ["R5", "R6", "R7/site", "R19"],
     "C07": ["R2/INFLIGHT", "R2/sink", "R2/anc", "R2/own", "R2/until", "R2/extra", "R3/P3", "R5/store", "R5/update_min", "R19/anc-closure"],
     "C08": ["R6"],
     "C09": ["R3/R12", "R4/outtime", "R19/interval"],
-    "C10": ["R1/O3", "R1/O4", "R2/INFLIGHT", "R2/sink", "R2/own", "R20/table/successors", "R20/delay", "R20/async"],
+    "C10": ["R1/O3", "R1/O4", "R2/INFLIGHT", "R2/sink", "R2/own", "R20/table/successors", "R20/delay", "R20/async", "R10/R18"],
     "C11": ["R7/R9", "R20", "R19/interval", "R19/group_path", "R22/readers", "R22/tuple"],
     "C12": ["R22"],
     "C13": ["R11", "R3/P2", "R3/P6"],
     "C15": ["R23", "R3/P3b"],
-    "C16": ["R1/O2", "R1/O4", "R20/async", "R20/connect"],
-    "C17": ["R2/rt", "R4/wait"],
+    "C16": ["R1/O2", "R1/O4", "R20/async", "R20/connect", "R10/gate", "R10/set_data", "R10/get_data", "R17/take", "R17/memory"],
+    "C17": ["R2/rt", "R4/wait", "R10/set_event", "R10/run", "R10/rt_check", "R10/R18"],
     "C18": ["R24"],
 }
 
@@ -52,6 +55,10 @@ CLAIMS: Dict[str, Tuple[str, str]] = {
             "sufficiency of these local obligations for causality under all interleavings (inductive protocol argument)"),
     "C02": ("who creates/moves/removes demanded steps, dedup + wake-iff-earlier in schedule_step, self-step iff < until, trigger iff attribute present at output time + delay, popped step == settled progress, bounds see steps in flight",
             "equality of the executed and the demanded step set over all behaviours"),
+    "C03": ("no mosaik-owned container is aliased into the step inputs (freshness depth), the cache pruner keeps every entry a floor lookup can still return, set_data inputs are taken and cleared, buffered values are delivered iff popped at the first step >= their due time in production order, the memory is written back only into existing keys, push/pull use the connection's time shift and the reported output time, delay tables are minima",
+            "value-level equality of inputs with the producers' histories; sub-time of weak delays on the data path (known finding W1, rule R21)"),
+    "C04": ("registration-order independence of every derived table (min-tables under a total order on same-shape operands), confinement of lazy_stepping and rt_strict (pass-through only), cache on/off agreement at the structural points where they differed (aliasing, floor entry), write-back discipline",
+            "equality of observation sequences across interleavings and across the cache/push paths in general"),
     "C05": ("no lost wake-up (Progress, next_step_settled), every wait target is dominated by a bound containing until, progress bounds are minima over all step sources, comparison sites of the partial interval order",
             "absence of deadlock for all accepted scenarios (liveness of the whole protocol)"),
     "C06": ("min-tables and update_min contract, lexicographic order methods, comparison sites (two path-sum sites are the known finding D16)",
@@ -64,17 +71,17 @@ CLAIMS: Dict[str, Tuple[str, str]] = {
             "'time then advances normally' (behaviour)"),
     "C10": ("under the flag every direct consumer contributes a has_reached(next_step + adapt) wait that is awaited before the step; the consumer's progress is a lower bound on its outstanding steps",
             "the run-ahead bound over executions"),
-    "C11": ("identity semantics of simulator groups (no structural equality under equality-based lookups)",
-            "rejection table and no-effect-before-rejection are added by R20/R10 when implemented"),
+    "C11": ("the rejection table of connect_one as an exhaustive decision table (exactly the four rejection classes, ScenarioError), no data-flow effect in any rejected row, which table gets which entry in every accepted row, weak needs a shared non-root group, shift/weak tiers, identity semantics of simulator groups",
+            "'exactly when' over all concrete model descriptions"),
     "C12": ("the co-finite set algebra exhaustively (pointwise truth tables of every OutSet operator and branch), the inference equations and rejections of parse_set_triple, the defaults table of parse_attrs for all 192 combinations of type x any_inputs x present keys, the forbidden-kind guards, tuple order writer/reader agreement",
             "the value-level input/output relation of parse_attrs over all concrete descriptions"),
     "C13": ("decision table of scheduler.step / get_outputs over the reply: every malformed reply class has a dominating SimulationError naming the simulator and precedes every effect; the popped step is never re-inserted",
             "reply classes not listed in the statement"),
     "C15": ("request shapes of every Proxy.send site (step: exactly 3 positional arguments, no keyword arguments), the feature/adapter table (max_advance, setup_done, missing type), thresholds and nesting order of the adapters for representative versions, the two rejections dominate the wrapping, configured and reported versions are parsed alike, in-process time_resolution handling",
             "'sees the same scheduling and data as a current-version simulator' (behaviour)"),
-    "C16": ("the producer waits unconditionally for its async consumers",
-            "the ordering clause over executions; gating/consume-once are added by R10/R17 when implemented"),
-    "C17": ("real-time progress term present, guarded by rt_factor and measured from rt_start; polling wait with timeout=rt_factor and progress advance after each wake-up",
+    "C16": ("the producer waits unconditionally for its async consumers, set_data/get_data are gated by _assert_async_requests (ScenarioError for both missing-connection cases) before any access, set_data inputs are consumed exactly once (take and clear), connect_async_requests fills successors, successors_to_wait_for and input_delays",
+            "the ordering clause over executions"),
+    "C17": ("set_event decision table (error outside real-time mode before any effect, schedule iff < until else warn, lifted to the simulator's tiers), rt_factor validated and scaled by time_resolution before it is stored, real-time progress term, polling wait with timeout=rt_factor, rt_check table (RuntimeError iff rt_strict), rt_strict confined",
             "every wall-clock clause (timing is a runtime quantity)"),
     "C18": ("returned set == set of destinations passed to connect (same loop nest, same conditions), one connect per source in connect_many_to_one and _connect_randomly, chunk stride == window width in _connect_evenly, count++ then removal iff count >= max_connects",
             "the numeric clauses (difference <= 1, behaviour at the exact capacity boundary, D6)"),
